@@ -21,24 +21,28 @@ func init() {
 		Families: []family{
 			{Name: "l1-history", Fn: scnL1History("C01", after), Weight: 3},
 			{Name: "l1-history-noisy", Fn: scnL1History("C01", noisy), Weight: 1},
+			{Name: "l1-pid-reuse-unended", Fn: scnL1Special("C01", genUnendedReuseHistory), Weight: 1},
 			{Name: "l2-read", Fn: scnL2World("C01"), Weight: 2},
 			{Name: "l3-daemon", Fn: scnL3World("C01"), Weight: 1},
 		},
 		Rule: "multi-session histories (1-5 sessions, unique PIDs/session ids, logins placed at every split point, cleanup calls inside the window, fake-clock gaps) " +
 			"at three levels: tracker API (l1), real Read loop with parser/reassembler/tickers (l2), assembled daemon on simulated pipes (l3); " +
+			"l1-pid-reuse-unended: a correlated session whose credential-disposal record never arrives (sshd killed), then a new session opened by the same PID with its own login at every split point, next to pending and bound background sessions, taped map-iteration order; " +
 			"non-trivial = at least two ssh sessions and at least one login delivered after its LOGIN record; distinct = distinct (history hash, schedule hash)",
 		Quick: 14000, Thorough: 400000,
 	})
 	register(&propDef{
 		ID: "C02", Level: "exploration",
 		Families: []family{
-			{Name: "l1-history", Fn: scnL1History("C02", base), Weight: 3},
-			{Name: "l1-history-afterend", Fn: scnL1History("C02", after), Weight: 1},
-			{Name: "l2-read", Fn: scnL2World("C02"), Weight: 2},
-			{Name: "l3-daemon", Fn: scnL3World("C02"), Weight: 1},
+			{Name: "l1-history", Fn: scnL1History("C02", base), Weight: 6},
+			{Name: "l1-history-afterend", Fn: scnL1History("C02", after), Weight: 2},
+			{Name: "l1-pid-reuse-unended", Fn: scnL1Special("C02", genUnendedReuseHistory), Weight: 2},
+			{Name: "l1-large-backlog", Fn: scnL1Special("C02", genBacklogHistory), Weight: 1},
+			{Name: "l2-read", Fn: scnL2World("C02"), Weight: 4},
+			{Name: "l3-daemon", Fn: scnL3World("C02"), Weight: 2},
 		},
 		Rule: "as C01; the login of session 0 is swept systematically over every split point of its event list in half of the runs " +
-			"(split = run/2 mod (len+1)), drawn in the others; non-trivial = a correlated session with >= 2 emitted events or >= 2 ssh sessions with a late login; distinct = distinct (history hash, schedule hash)",
+			"(split = run/2 mod (len+1)), drawn in the others; l1-pid-reuse-unended as in C01; l1-large-backlog: one session holds 27 to ~2100 events (2^k +- a few) before its login arrives mid-session or after the credential-disposal record, next to another pending session; non-trivial = a correlated session with >= 2 emitted events or >= 2 ssh sessions with a late login; distinct = distinct (history hash, schedule hash)",
 		Quick: 14000, Thorough: 400000,
 	})
 	register(&propDef{
@@ -77,6 +81,173 @@ func init() {
 			"non-trivial = a cleanup call (or ticker firing) happened between the two halves of a session; distinct = distinct (history hash, schedule hash)",
 		Quick: 8000, Thorough: 240000,
 	})
+}
+
+// ---- special L1 histories shared by C01 / C02 ----
+
+// genUnendedReuseHistory: session A is correlated but never ends (its credential-disposal record
+// never arrives: sshd was killed, records were lost); later the same PID opens session B.
+func genUnendedReuseHistory(t *simrt.Tape) *History {
+	k := NewKaudit()
+	w := &L1World{}
+	pid := 5200 + t.Choose(50, "pid")
+	a := &Session{Ses: fmt.Sprint(900 + t.Choose(5, "sesA")), PID: pid, UID: 1000, Kind: "ssh"}
+	a.Login = GenLogin(t, pid, 1)
+	b := &Session{Ses: fmt.Sprint(920 + t.Choose(5, "sesB")), PID: pid, UID: 1001, Kind: "ssh"}
+	b.Login = GenLogin(t, pid, 2)
+	w.Sessions = []*Session{a, b}
+	var ops []HOp
+	// background sessions with other PIDs: bound, pending (LOGIN record only), or login only
+	nbg := t.Choose(4, "nbg")
+	for i := 0; i < nbg; i++ {
+		bg := &Session{Ses: fmt.Sprint(950 + i), PID: pid + 1000 + i, UID: 1002 + i, Kind: "ssh"}
+		bg.Login = GenLogin(t, bg.PID, 3+i)
+		bg.Events = append(bg.Events, k.Login(bg.Ses, bg.PID, bg.UID))
+		w.Sessions = append(w.Sessions, bg)
+		si := len(w.Sessions) - 1
+		switch t.Choose(3, "bg.state") {
+		case 0:
+			ops = append(ops, HOp{Kind: "event", S: si, E: 0}, HOp{Kind: "login", S: si})
+		case 1:
+			ops = append(ops, HOp{Kind: "event", S: si, E: 0})
+		default:
+			ops = append(ops, HOp{Kind: "login", S: si}, HOp{Kind: "event", S: si, E: 0})
+		}
+	}
+	a.Events = append(a.Events, k.Login(a.Ses, pid, a.UID))
+	for i, na := 0, t.Choose(4, "nactA"); i < na; i++ {
+		a.Events = append(a.Events, GenAction(t, k, a.Ses, pid, a.UID))
+	}
+	splitA := t.Choose(len(a.Events)+1, "splitA")
+	for i := range a.Events {
+		if i == splitA {
+			ops = append(ops, HOp{Kind: "login", S: 0})
+		}
+		ops = append(ops, HOp{Kind: "event", S: 0, E: i})
+	}
+	if splitA == len(a.Events) {
+		ops = append(ops, HOp{Kind: "login", S: 0})
+	}
+	ops = append(ops, HOp{Kind: "sleep", Ms: 1000 + t.Choose(20000, "gap.ms")})
+	b.Events = append(b.Events, k.Login(b.Ses, pid, b.UID))
+	for i, nb := 0, 1+t.Choose(4, "nactB"); i < nb; i++ {
+		b.Events = append(b.Events, GenAction(t, k, b.Ses, pid, b.UID))
+	}
+	if t.Choose(2, "endB") == 1 {
+		b.Events = append(b.Events, k.UserMsg("CRED_DISP", b.Ses, pid, b.UID, true, 0))
+	}
+	splitB := t.Choose(len(b.Events)+1, "splitB")
+	for i := range b.Events {
+		if i == splitB {
+			ops = append(ops, HOp{Kind: "login", S: 1})
+		}
+		ops = append(ops, HOp{Kind: "event", S: 1, E: i})
+	}
+	if splitB == len(b.Events) {
+		ops = append(ops, HOp{Kind: "login", S: 1})
+	}
+	return &History{W: w, Ops: ops}
+}
+
+// genBacklogHistory: one session accumulates a large number of held events before its login
+// arrives (an sshd log that lags far behind a busy session).
+func genBacklogHistory(t *simrt.Tape) *History {
+	k := NewKaudit()
+	w := &L1World{}
+	pid := 5400 + t.Choose(50, "pid")
+	a := &Session{Ses: "940", PID: pid, UID: 1000, Kind: "ssh"}
+	a.Login = GenLogin(t, pid, 1)
+	w.Sessions = []*Session{a}
+	var ops []HOp
+	if t.Choose(2, "other.pending") == 1 {
+		o := &Session{Ses: "941", PID: pid + 500, UID: 1001, Kind: "ssh"}
+		o.Login = GenLogin(t, o.PID, 2)
+		o.Events = append(o.Events, k.Login(o.Ses, o.PID, o.UID), GenAction(t, k, o.Ses, o.PID, o.UID))
+		w.Sessions = append(w.Sessions, o)
+		ops = append(ops, HOp{Kind: "event", S: 1, E: 0}, HOp{Kind: "event", S: 1, E: 1})
+	}
+	held := (1 << (5 + t.Choose(7, "held.log2"))) + t.Choose(40, "held.delta") - 5
+	a.Events = append(a.Events, k.Login(a.Ses, pid, a.UID))
+	for i := 1; i < held; i++ {
+		a.Events = append(a.Events, GenAction(t, k, a.Ses, pid, a.UID))
+	}
+	afterEnd := t.Choose(2, "login.after.end") == 1
+	if afterEnd {
+		a.Events = append(a.Events, k.UserMsg("CRED_DISP", a.Ses, pid, a.UID, true, 0))
+	}
+	for i := range a.Events {
+		ops = append(ops, HOp{Kind: "event", S: 0, E: i})
+	}
+	ops = append(ops, HOp{Kind: "login", S: 0})
+	if !afterEnd {
+		n0 := len(a.Events)
+		for i, more := 0, 1+t.Choose(4, "more"); i < more; i++ {
+			a.Events = append(a.Events, GenAction(t, k, a.Ses, pid, a.UID))
+		}
+		a.Events = append(a.Events, k.UserMsg("CRED_DISP", a.Ses, pid, a.UID, true, 0))
+		for i := n0; i < len(a.Events); i++ {
+			ops = append(ops, HOp{Kind: "event", S: 0, E: i})
+		}
+	}
+	if len(w.Sessions) > 1 {
+		ops = append(ops, HOp{Kind: "login", S: 1})
+	}
+	return &History{W: w, Ops: ops}
+}
+
+func scnL1Special(prop string, gen func(*simrt.Tape) *History) scenarioFn {
+	return func(rc *RunCtx) {
+		h := gen(rc.Spec)
+		if err := h.W.Prepare(); err != nil {
+			rc.Abort("world: %v", err)
+			return
+		}
+		rec := &Recorder{Sim: rc.Sim, NoPoint: true}
+		errs := h.exec(rc, rec, func(int) {})
+		rc.CaseKey(h.caseKey())
+		rc.State(h.stateKey(rec.Events))
+		smp := sampleOf(h, map[string]any{"emitted": len(rec.Events)})
+		if hist, ok := smp["history"].([]string); ok && len(hist) > 60 {
+			smp["history"] = append(append([]string{}, hist[:30]...), fmt.Sprintf("... %d more ...", len(hist)-60))
+			smp["history"] = append(smp["history"].([]string), hist[len(hist)-30:]...)
+		}
+		if ss, ok := smp["sessions"].([]string); ok {
+			for i := range ss {
+				ss[i] = truncate(ss[i], 300)
+			}
+		}
+		rc.R.Sample = smp
+		rc.R.NonTrivial = len(rec.Events) >= 2
+		if len(errs) > 0 {
+			rc.Abort("tracker returned errors in a fault-free history: %v", errs)
+			return
+		}
+		switch prop {
+		case "C01":
+			// session ids are unique and every session has its own login
+			for _, e := range rec.Events {
+				if e.Type != "UserAction" {
+					continue
+				}
+				si := h.sessionBySes(e.AuditID)
+				if si < 0 {
+					continue
+				}
+				if e.Identity() != h.loginIdent[si] {
+					whose := "nobody's"
+					for sj, id := range h.loginIdent {
+						if id == e.Identity() {
+							whose = fmt.Sprintf("the login of session s%d (ses %s, pid %d)", sj, h.W.Sessions[sj].Ses, h.W.Sessions[sj].PID)
+						}
+					}
+					rc.Fail("C01", "wrong-identity", "UserAction #%d of audit session %s (opened by pid %d) carries %s instead of its own login", e.Seq, e.AuditID, h.W.Sessions[si].PID, whose)
+					return
+				}
+			}
+		case "C02":
+			h.checkC02(rc, rec.Events)
+		}
+	}
 }
 
 // ---- C09 ----
